@@ -147,7 +147,7 @@ TEXT = {
            "mutating file-system call, for every k of the launch; the state files at death must be one of the model's crash states, a real re-launch follows, and the same "
            "predicate (crashChecks) judges what it selects.",
   "design_ref": "DESIGN.md section 4, C04",
-  "note": "partial: the property's second sentence (single I/O error, execution continues) is exercised on the real library (interposer mode eio, thorough tier) but not covered by a theorem; durability below the system-call level (no fsync) is outside the model; 'not banned before' is proved for previously recorded patches, for the patch being installed it rests on the correspondence.",
+  "note": "partial: the property's second sentence (single I/O error, execution continues) is exercised on the real library (interposer mode eio, thorough tier) but not covered by a theorem; durability below the system-call level (no fsync) is outside the model; 'not banned before' is proved under C02's invariant of the state before the launch (hypothesis hban).",
   "technique": "Lean 4 theorem (save-event semantics of every critical section, all crash points, arbitrary artifact directory) + system-call-level crash injection on the real library",
  },
  "C09": {
